@@ -31,6 +31,41 @@ def _scan_assumes():
     return hits
 
 
+def _line_coverage(main):
+    """Per function of the repository entered by this check: executed lines / executable lines (front end N and the
+    concretely executed parts; sandbox-recompiled functions of front end A are listed under rewritten_loops instead)."""
+    import os
+    root = os.path.join(os.environ.get("QUCUMBER_REPO", "/repo"), "qucumber")
+    hit = {}
+    for r in main:
+        for (f, q, ln) in r.get("cov", []):
+            hit.setdefault((f, q), set()).add(ln)
+    out = {}
+    files = {}
+    for (f, q) in hit:
+        if f not in files:
+            try:
+                code = compile(open(os.path.join(root, f)).read(), os.path.join(root, f), "exec")
+            except (OSError, SyntaxError):
+                continue
+            table = {}
+
+            def walk(co):
+                for c in co.co_consts:
+                    if hasattr(c, "co_code"):
+                        lines = {l for (_s, _e, l) in c.co_lines() if l is not None and l != c.co_firstlineno}
+                        table[c.co_qualname] = lines
+                        walk(c)
+            walk(code)
+            files[f] = table
+        lines = files[f].get(q)
+        if not lines or q.startswith("<"):
+            continue
+        miss = sorted(lines - hit[(f, q)])
+        out["%s:%s" % (f, q)] = "%d/%d" % (len(lines) - len(miss), len(lines)) + ((" missing lines %s" % miss[:12]) if miss else "")
+    return out
+
+
 def build(prop, tier, seed, L, main, can, obls, viol, und, reported, known_hits, dead, crashes, wall):
     backends = {}
     for o in obls:
@@ -82,6 +117,7 @@ def build(prop, tier, seed, L, main, can, obls, viol, und, reported, known_hits,
             "stubs_applied": stubs,
             "rewritten_loops": [json.loads(x) for x in rewritten],
             "primitive_models_used": prims,
+            "line_coverage_of_repository_functions_entered": _line_coverage(main),
             "side_conditions_proved_by_z3": sum(len(r["side"]) for r in main),
             "generic_position_assumptions": sorted({g for r in main for g in r["generic"]})[:20],
             "canaries": {"run": len(can), "refuted": len(can) - len(dead)},
